@@ -203,7 +203,8 @@ def run_corpus(mod, ops, res):
             continue
         a = tuple(tuple(x) if isinstance(x, list) else x for x in entry["args"])
         out = engine.run_one(op, a, res)
-        batch.append((op, a, out))
+        if op.model:
+            batch.append((op, a, out))
     engine.compare(batch, res)
     return len(batch)
 
